@@ -42,7 +42,7 @@ P = {
          "DESIGN.md 4/C08"),
  "C09": (True, "c09markers",
          "exhaustive enumeration of generated type expressions; marker booleans computed with the inherent-const-shadows-trait-const trick",
-         "Every opaque-conversion rule (references, CBox, CSliceBox, CArc, CArcSome, Fwd over each handle kind, containers, generated objects, groups, group containers; with and without context; the same for a trait with real temporary-return storage, whose objects are never Sync; plus wrapper rows comparing each smart pointer / CVec / Fwd with the std handle it stands for) x payloads {Send,!Send}x{Sync,!Sync} x {Send,Sync}: convertible and marker(opaque form) implies marker(instance handle). Finite matrix, exhaustive. 11 (handle, marker) cells fail on the pinned tree and are listed as known findings; any other failing cell is a violation.",
+         "Every opaque-conversion rule (references, CBox, CSliceBox, CArc, CArcSome, Fwd over each handle kind, containers, generated objects, groups, group containers; with and without context; PhantomData handles, the same for a trait with real temporary-return storage, whose objects are never Sync; plus wrapper rows comparing each smart pointer / CVec / Fwd with the std handle it stands for) x payloads {Send,!Send}x{Sync,!Sync} x {Send,Sync}: convertible and marker(opaque form) implies marker(instance handle). Finite matrix, exhaustive. 11 (handle, marker) cells fail on the pinned tree and are listed as known findings; any other failing cell is a violation.",
          "stated target types are compared with type_name of the real OpaqueTarget",
          "DESIGN.md 4/C09"),
  "C10": (True, "rtprops",
